@@ -4,6 +4,7 @@ from __future__ import annotations
 
 import random
 import sys
+import traceback
 from fractions import Fraction
 from typing import Any, List, Optional
 
@@ -63,6 +64,39 @@ def _slot_pair(slot: str):
     return {"b": (i, (i + 1) % 4), "t": (i + 4, (i + 1) % 4 + 4), "s": (i, i + 4)}[slot[0]]
 
 
+# a cyclic corner order for every side (only the cycle matters: its sense is fixed geometrically by the oracle)
+BM_CYCLE = {
+    "bottom": (0, 1, 2, 3),
+    "top": (4, 5, 6, 7),
+    "left": (0, 4, 7, 3),
+    "right": (1, 2, 6, 5),
+    "front": (0, 1, 5, 4),
+    "back": (3, 2, 6, 7),
+}
+
+
+def _oracle_cosines(pts, viewer):
+    """cosine between the outward normal of every side (Newell normal of the side's corner cycle, turned away from the
+    block centre) and the direction from the side's centre to the viewer; None when something is degenerate"""
+    import numpy as np
+
+    P = np.array([[float(c) for c in p] for p in pts])
+    v = np.array([float(c) for c in viewer])
+    bc = P.mean(axis=0)
+    out = {}
+    for side, cyc in BM_CYCLE.items():
+        q = P[list(cyc)]
+        fc = q.mean(axis=0)
+        nrm = sum(np.cross(q[i] - fc, q[(i + 1) % 4] - fc) for i in range(4))
+        if np.dot(nrm, fc - bc) < 0:
+            nrm = -nrm
+        d = v - fc
+        if np.linalg.norm(nrm) < 1e-9 or np.linalg.norm(d) < 1e-9:
+            return None
+        out[side] = float(np.dot(nrm, d) / np.linalg.norm(nrm) / np.linalg.norm(d))
+    return out
+
+
 def _fr(x) -> str:
     return core.rat(Fraction(x))
 
@@ -77,9 +111,21 @@ class C10(core.Check):
         "corner pairs and 9 corner numbers (invalid ones included), the list form of set_patch (any selection and order of "
         "sides), remove_edges (no argument / empty list / corner list) and one edge datum put on two edges by corner "
         "numbers, observed on the assembled mesh; face quads are general (2/3), planar with a reflex corner, or "
-        "millimetre-sized and warped, and the direction of Face.normal is compared with the model's exact vector. Thorough tier also "
+        "millimetre-sized and warped, and the direction of Face.normal is compared with the model's exact vector. Addressing cases run on a "
+        "Loft, Box, Extrude, Revolve or Wedge (default patches, inner/outer patch, Angle data on the four vertical edges), with "
+        "add_side_edge / Face.add_edge by corner number and corner numbers -1..8. Geometric cases: affine images of the unit cube "
+        "(dyadic matrices, |det| >= 4, 15 % inside-out, half with jittered corners) with get_face for all sides, centres, normals and "
+        "get_closest_side / get_closest_face / get_normal_face queries (margin between best and second best); Box from two arbitrary "
+        "corners, Extrude by a vector or a scalar, Connector between laterally displaced boxes (choice of faces only). Thorough tier also "
         "enumerates all single calls exhaustively. Non-trivial = at least one call that changes the object; distinct = "
         "different call sequence or geometry."
+    )
+    partial_note = (
+        "Theorems: face re-indexing for all faces / counts / distances, addressing on all sides, corner pairs and corners, the "
+        "tables against the hexahedron and each other, outward normals for every affine image of the cube, first-minimum / "
+        "first-maximum choice of get_closest_side / get_normal_face. Not theorems: float rounding of norms and cosines (the "
+        "generator keeps a margin), python's deque.rotate beyond counts -9..9 (the model has period 4), Extrude by a scalar "
+        "amount and Connector's alignment measure (square roots; oracle only), which corner of a Connector becomes which (C18)."
     )
     assumptions = [
         "the face/operation model mirrors python list semantics (deque.rotate, list.reverse, stable sort) — validated by correspondence",
@@ -119,10 +165,20 @@ class C10(core.Check):
         sides = list(BM_SIDE) + ["middle"]
         for _ in range(n):
             calls = []
+            base = rng.choice(["loft"] * 5 + ["box", "extrude", "revolve", "revolve", "wedge", "wedge"])
             for _ in range(rng.randint(1, 6)):
                 r = rng.random()
                 lab = rng.choice(["g1", "g2"])
-                if r < 0.3:
+                if base == "wedge" and r < 0.12:
+                    calls.append(["wedgepatch", rng.choice(["set_inner_patch", "set_outer_patch"]), rng.choice(["pa", "pb", "pc"])])
+                elif r < 0.04:
+                    # add_side_edge / Face.add_edge by corner number (rarely just outside 0..3)
+                    i = rng.choice([-1, 4]) if rng.random() < 0.08 else rng.randrange(4)
+                    if rng.random() < 0.5:
+                        calls.append(["sideedge", i, lab])
+                    else:
+                        calls.append(["faceedge", rng.choice(["bottom", "top"]), i, lab])
+                elif r < 0.3:
                     calls.append(["patch", rng.choice(sides if rng.random() < 0.1 else sides[:6]), rng.choice(["pa", "pb", "pc"])])
                 elif r < 0.55:
                     calls.append(["pside", rng.choice(sides[:6]), lab, int(rng.random() < 0.4), int(rng.random() < 0.4)])
@@ -132,10 +188,10 @@ class C10(core.Check):
                         if rng.random() < 0.5:
                             a, b = b, a
                     else:
-                        a, b = rng.randrange(8), rng.randrange(8)
+                        a, b = rng.randrange(-1, 9), rng.randrange(-1, 9)
                     calls.append(["pedge", a, b, lab])
                 elif r < 0.88:
-                    calls.append(["pcorner", rng.randrange(9) if rng.random() < 0.1 else rng.randrange(8), lab])
+                    calls.append(["pcorner", rng.randrange(-1, 9) if rng.random() < 0.1 else rng.randrange(8), lab])
                 elif r < 0.93:
                     # the same list object handed to several project_corner calls
                     calls.append(["pcornerL", rng.randrange(8), rng.choice(["L1", "L2"]), None])
@@ -176,8 +232,19 @@ class C10(core.Check):
             for c in calls:
                 if c[0] == "pcornerL":
                     c[3] = first.setdefault(c[2], rng.choice(["g1", "g2"]))
-            cases.append({"kind": "addr", "calls": calls})
+            cases.append({"kind": "addr", "base": base, "calls": calls})
+        cases += self._geo_cases(rng, n // 3 if tier == "quick" else n // 4)
         if tier == "thorough":
+            for base in ("box", "extrude", "revolve", "wedge"):
+                for a, b in (sorted(e) for e in BM_EDGES):
+                    cases.append({"kind": "addr", "base": base, "calls": [["pedge", b, a, "g1"]]})
+                for s in sides[:6]:
+                    cases.append({"kind": "addr", "base": base, "calls": [["pside", s, "g1", 1, 1], ["patch", s, "pa"]]})
+                for i in range(-1, 5):
+                    cases.append({"kind": "addr", "base": base, "calls": [["sideedge", i, "g1"]]})
+                    cases.append({"kind": "addr", "base": base, "calls": [["faceedge", "top", i, "g1"]]})
+            for c in (-2, -1):
+                cases.append({"kind": "addr", "calls": [["pcorner", c, "g1"]]})
             for s in sides:
                 cases.append({"kind": "addr", "calls": [["patch", s, "pa"]]})
                 for e in (0, 1):
@@ -203,6 +270,85 @@ class C10(core.Check):
             for k in range(-9, 10):
                 cases.append({"kind": "face", "points": [[str(c) for c in p] for p in _quad(rng)], "ops": [["shift", k]]})
         return cases
+
+
+    # ------------------------------------------------------------------ geometric cases (faces by side name on real points)
+    def _geo_cases(self, rng: random.Random, n: int) -> List[dict]:
+        """hexahedra = affine images of the unit cube (small dyadic matrices, mostly right-handed), half of them with
+        jittered corners; queries with a margin between the best and the second best candidate"""
+        out: List[dict] = []
+        F = Fraction
+        while len(out) < n:
+            cols = [[F(rng.randint(-6, 6), 4) for _ in range(3)] for _ in range(3)]
+            for k in range(3):
+                cols[k][k] += F(rng.choice([2, 3]))
+            det = (
+                cols[0][0] * (cols[1][1] * cols[2][2] - cols[1][2] * cols[2][1])
+                - cols[0][1] * (cols[1][0] * cols[2][2] - cols[1][2] * cols[2][0])
+                + cols[0][2] * (cols[1][0] * cols[2][1] - cols[1][1] * cols[2][0])
+            )
+            if abs(det) < 4:
+                continue
+            if rng.random() < 0.15:
+                cols[0], cols[1] = cols[1], cols[0]  # an inside-out block
+                det = -det
+            t = [F(rng.randint(-16, 16), 4) for _ in range(3)]
+            jitter = rng.random() < 0.5
+            pts = []
+            for c in range(8):
+                x, y, z = int(c % 4 in (1, 2)), int(c % 4 in (2, 3)), int(c >= 4)
+                p = [t[i] + x * cols[0][i] + y * cols[1][i] + z * cols[2][i] for i in range(3)]
+                if jitter:
+                    p = [v + F(rng.randint(-2, 2), 16) for v in p]
+                pts.append(p)
+            centre = [sum(p[i] for p in pts) / 8 for i in range(3)]
+            fcs = {s: [sum(pts[c][i] for c in q) / 4 for i in range(3)] for s, q in BM_SIDE.items()}
+            queries: List[list] = [["center"]] + [["face", s] for s in BM_SIDE]
+            s0 = rng.choice(list(BM_SIDE))
+            queries += [["fcenter", s0], ["fnormal", s0]]
+            tries = 0
+            while len(queries) < 15 and tries < 200:
+                tries += 1
+                q = [centre[i] + F(rng.randint(-40, 40), 8) for i in range(3)]
+                if rng.random() < 0.4:
+                    # near one face centre: the interesting region for get_closest_side
+                    s1 = rng.choice(list(BM_SIDE))
+                    q = [fcs[s1][i] + F(rng.randint(-6, 6), 8) for i in range(3)]
+                d = sorted(sum((a - b) ** 2 for a, b in zip(q, fc)) for fc in fcs.values())
+                if d[1] - d[0] < F(1, 64):
+                    continue
+                kind = rng.choice(["closest", "closest", "closestface", "nface", "nface"])
+                if kind == "nface":
+                    cs = _oracle_cosines(pts, q)
+                    if cs is None:
+                        continue
+                    v = sorted(cs.values())
+                    if v[-1] - v[-2] < 1e-3:
+                        continue
+                queries.append([kind, [str(c) for c in q]])
+            out.append({"kind": "geo", "det": str(det), "jitter": jitter, "points": [[str(c) for c in p] for p in pts], "queries": queries})
+        for _ in range(max(4, n // 4)):
+            p = [F(rng.randint(-16, 16), 8) for _ in range(3)]
+            q = [a + F(rng.choice([-1, 1]) * rng.randint(1, 16), 8) for a in p]
+            out.append({"kind": "box", "p": [str(c) for c in p], "q": [str(c) for c in q]})
+        for _ in range(max(4, n // 4)):
+            base = _quad(rng)
+            if rng.random() < 0.6:
+                amount: Any = [str(F(rng.randint(-8, 8), 8)) for _ in range(2)] + [str(F(rng.choice([-1, 1]) * rng.randint(2, 12), 8))]
+            else:
+                amount = str(F(rng.choice([-1, 1]) * rng.randint(2, 12), 8))
+            out.append({"kind": "extrude", "points": [[str(c) for c in p] for p in base], "amount": amount})
+        for _ in range(max(3, n // 6)):
+            # two boxes, the second displaced mainly along one axis: a Connector between them
+            # (not along axis 2 of the first box: there the viewpoint and the ceiling Connector hands to ViewpointReorienter
+            # are parallel, a configuration its documentation excludes)
+            ax = rng.randrange(2)
+            sign = rng.choice([-1, 1])
+            shift = [F(rng.randint(-2, 2), 8) for _ in range(3)]
+            shift[ax] = sign * F(rng.randint(20, 32), 8)
+            size2 = [F(rng.randint(6, 10), 8) for _ in range(3)]
+            out.append({"kind": "connector", "axis": ax, "sign": sign, "shift": [str(c) for c in shift], "size2": [str(c) for c in size2]})
+        return out
 
     # ------------------------------------------------------------------ implementation
     def run_impl(self, case: dict) -> Any:
@@ -236,9 +382,24 @@ class C10(core.Check):
                 )
             return {"trace": trace, "n0": n0}
 
+        if case["kind"] in ("geo", "box", "extrude", "connector"):
+            return self._run_geo(case)
+
         # addressing, observed on the assembled mesh
         hexa = [[0, 0, 0], [1, 0, 0], [1.1, 1, 0], [0, 1.2, 0], [0, 0, 1], [1, 0, 1.3], [1, 1, 1], [0, 1.1, 1.1]]
-        op = cb.Loft(cb.Face(hexa[:4]), cb.Face(hexa[4:]))
+        base = case.get("base", "loft")
+        quad = [[0, 1, 0], [1, 1, 0], [1.1, 2, 0], [0, 2.2, 0]]  # in the xy-plane, away from the x-axis
+        if base == "loft":
+            op = cb.Loft(cb.Face(hexa[:4]), cb.Face(hexa[4:]))
+        elif base == "box":
+            op = cb.Box([1, 1.2, 0], [0, 0, 1.1])
+        elif base == "extrude":
+            op = cb.Extrude(cb.Face(hexa[:4]), [0.1, 0.2, 1.0])
+        elif base == "revolve":
+            op = cb.Revolve(cb.Face(quad), 0.5, [1, 0, 0], [0, 0, 0])
+        else:
+            op = cb.Wedge(cb.Face(quad), 0.2)
+        hexa = [[float(x) for x in p.position] for p in op.points]
         shared = {}
         facing = []
         viewers = [[3, 0.4, 0.5], [-2, 0.5, 0.4], [0.5, 3, 0.5], [0.4, -2, 0.6], [0.5, 0.6, 3], [0.6, 0.4, -2]]
@@ -272,6 +433,12 @@ class C10(core.Check):
                             op.top_face.add_edge(i, datum)
                         else:
                             op.add_side_edge(i, datum)
+                elif c[0] == "wedgepatch":
+                    getattr(op, c[1])(c[2])
+                elif c[0] == "sideedge":
+                    op.add_side_edge(c[1], cb.Project(c[2]))
+                elif c[0] == "faceedge":
+                    (op.bottom_face if c[1] == "bottom" else op.top_face).add_edge(c[2], cb.Project(c[3]))
                 elif c[0] == "pside":
                     op.project_side(c[1], c[2], bool(c[3]), bool(c[4]))
                 elif c[0] == "pedge":
@@ -296,7 +463,13 @@ class C10(core.Check):
             if e.kind == "project"
         )
         cor = [(v.index, "+".join(v.projected_to)) for v in mesh.vertex_list.vertices if v.projected_to]
+        oth = sorted(
+            f"{min(e.vertex_1.index, e.vertex_2.index)}-{max(e.vertex_1.index, e.vertex_2.index)}:edges.{type(e.data).__name__}"
+            for e in mesh.edge_list.edges
+            if e.kind not in ("project", "line")
+        )
         return {
+            "X": oth,
             "P": pat,
             "F": fac,
             "E": [f"{a}-{b}:{l}" for a, b, l in eds],
@@ -315,6 +488,65 @@ class C10(core.Check):
             "shared_lists": {k: list(v) for k, v in shared.items()},
         }
 
+
+    def _run_geo(self, case: dict) -> Any:
+        import numpy as np
+
+        import classy_blocks as cb
+
+        fl = lambda p: [float(Fraction(c)) for c in p]
+        rp = lambda arr: [[core.rat(float(x)) for x in p] for p in arr]
+        if case["kind"] == "box":
+            op = cb.Box(fl(case["p"]), fl(case["q"]))
+            return {"points": rp(op.point_array)}
+        if case["kind"] == "extrude":
+            am = case["amount"]
+            amount = fl(am) if isinstance(am, list) else float(Fraction(am))
+            base = cb.Face([fl(p) for p in case["points"]])
+            n = [float(x) for x in base.normal]
+            op = cb.Extrude(base, amount)
+            return {"points": rp(op.point_array), "pf": [[float(x) for x in p] for p in op.point_array], "normal": n}
+        if case["kind"] == "connector":
+            from classy_blocks.construct.operations.connector import Connector
+
+            sh = fl(case["shift"])
+            sz = fl(case["size2"])
+            op1 = cb.Box([0, 0, 0], [1, 1, 1])
+            op2 = cb.Box(sh, [a + b for a, b in zip(sh, sz)])
+            try:
+                con = Connector(op1, op2)
+            except Exception as e:  # noqa: BLE001
+                # ViewpointReorienter gives up on some of the lofts Connector hands it (IndexError in get_common_point,
+                # DegenerateGeometryError): C18's subject, nothing to observe here about the choice of faces
+                if "viewpoint.py" not in traceback.format_exc():
+                    raise
+                return {"skipped": type(e).__name__}
+            return {
+                "p1": [[float(x) for x in p] for p in op1.point_array],
+                "p2": [[float(x) for x in p] for p in op2.point_array],
+                "pc": [[float(x) for x in p] for p in con.point_array],
+            }
+        pts = [fl(p) for p in case["points"]]
+        op = cb.Loft(cb.Face(pts[:4]), cb.Face(pts[4:]))
+        res = []
+        for q in case["queries"]:
+            if q[0] == "center":
+                res.append([float(x) for x in op.center])
+            elif q[0] == "face":
+                res.append(rp(op.get_face(q[1]).point_array))
+            elif q[0] == "fcenter":
+                res.append([float(x) for x in op.get_face(q[1]).center])
+            elif q[0] == "fnormal":
+                res.append([float(x) for x in op.get_face(q[1]).normal])
+            elif q[0] == "closest":
+                res.append(str(op.get_closest_side(fl(q[1]))))
+            elif q[0] == "closestface":
+                res.append(rp(op.get_closest_face(fl(q[1])).point_array))
+            else:
+                face = op.get_normal_face(fl(q[1]))
+                res.append({"points": rp(face.point_array), "normal": [float(x) for x in face.normal], "center": [float(x) for x in face.center]})
+        return {"res": res, "centre": [float(x) for x in op.center]}
+
     # ------------------------------------------------------------------ model
     def requests(self, case: dict, impl: Any) -> List[str]:
         if case["kind"] == "face":
@@ -331,7 +563,20 @@ class C10(core.Check):
                 reqs.append(f"c10.face {pts} " + ";".join(ops))
             reqs.append(f"c10.normal {pts}")
             return reqs
-        return ["c10.addr " + ";".join(":".join(str(x) for x in c) for c in case["calls"])]
+        if case["kind"] == "geo":
+            pts = " ".join(",".join(_fr(c) for c in p) for p in case["points"])
+            qs = ";".join(q[0] + (":" + (q[1] if isinstance(q[1], str) else ",".join(_fr(c) for c in q[1])) if len(q) > 1 else "") for q in case["queries"])
+            return [f"c10.geo {pts} {qs}"]
+        if case["kind"] == "box":
+            return ["c10.box " + ",".join(_fr(c) for c in case["p"]) + " " + ",".join(_fr(c) for c in case["q"])]
+        if case["kind"] == "extrude":
+            if not isinstance(case["amount"], list):
+                return []
+            return ["c10.extrude " + " ".join(",".join(_fr(c) for c in p) for p in case["points"]) + " " + ",".join(_fr(c) for c in case["amount"])]
+        if case["kind"] == "connector":
+            return []
+        calls = [["base", case.get("base", "loft")]] + case["calls"]
+        return ["c10.addr " + ";".join(":".join(str(x) for x in c) for c in calls)]
 
 
     def compare(self, case: dict, impl: Any, model: List[str]) -> Optional[str]:
@@ -349,6 +594,8 @@ class C10(core.Check):
             if not cos > 1 - 1e-9:
                 return f"Face.normal: implementation {impl['n0']}, model direction {[x / length for x in raw]}"
             return None
+        if case["kind"] in ("geo", "box", "extrude", "connector"):
+            return self._compare_geo(case, impl, model)
         ans = model[0]
         if "reject" in impl:
             return None if ans == "reject" else f"implementation rejects ({impl['reject']}), model answers {ans}"
@@ -356,22 +603,67 @@ class C10(core.Check):
             return "model rejects, implementation accepts"
         import re
 
-        m = re.fullmatch(r"P\[(.*)\] F\[(.*)\] E\[(.*)\] C\[(.*)\] K\[(.*)\] G\[(.*)\]", ans)
+        m = re.fullmatch(r"P\[(.*)\] F\[(.*)\] E\[(.*)\] C\[(.*)\] X\[(.*)\] K\[(.*)\] G\[(.*)\]", ans)
         if not m:
             return "unparsable model answer " + ans
-        got = {k: sorted(x for x in m.group(i + 1).split(";") if x) for i, k in enumerate("PFEC")}
+        got = {k: sorted(x for x in m.group(i + 1).split(";") if x) for i, k in enumerate("PFECX")}
+        if got["X"] != sorted(impl["X"]):
+            return f"side edges with other data: implementation {impl['X']}, model {got['X']}"
         for k in "PFE":
             if got[k] != sorted(impl[k]):
                 return f"section {k}: implementation {impl[k]}, model {got[k]}"
         if got["C"] != sorted(impl["C"]):
             return f"corners: implementation {impl['C']}, model {got['C']}"
-        k_model = ["+".join(sorted(x for x in part.split("+") if x)) for part in m.group(5).split(";")]
+        k_model = ["+".join(sorted(x for x in part.split("+") if x)) for part in m.group(6).split(";")]
         if k_model != impl["K"]:
             return f"patches at corners: implementation {impl['K']}, model {k_model}"
-        if m.group(6).split(";") != impl["G"]:
-            return f"faces by side name: implementation {impl['G']}, model {m.group(6)}"
-        if sorted(m.group(6).split(";")) != sorted(impl["G_all"]):
-            return f"get_all_faces: implementation {impl['G_all']}, model {m.group(6)}"
+        if m.group(7).split(";") != impl["G"]:
+            return f"faces by side name: implementation {impl['G']}, model {m.group(7)}"
+        if sorted(m.group(7).split(";")) != sorted(impl["G_all"]):
+            return f"get_all_faces: implementation {impl['G_all']}, model {m.group(7)}"
+        return None
+
+    def _compare_geo(self, case: dict, impl: Any, model: List[str]) -> Optional[str]:
+        def pts_of(txt):
+            return [p.split(",") for p in txt.split("|")]
+
+        def same_pts(a, b):
+            return len(a) == len(b) and all(Fraction(x) == Fraction(y) for p, q in zip(a, b) for x, y in zip(p, q)) and all(len(p) == len(q) for p, q in zip(a, b))
+
+        def close(vec, txt, tol=1e-9):
+            w = [float(Fraction(x)) for x in txt.split(",")]
+            return len(w) == len(vec) and all(abs(a - b) <= tol * max(1.0, abs(b)) for a, b in zip(vec, w))
+
+        if case["kind"] == "connector":
+            return None
+        if case["kind"] == "extrude" and not model:
+            return None
+        if case["kind"] in ("box", "extrude"):
+            if not same_pts(impl["points"], pts_of(model[0])):
+                return f"{case['kind']} corners: implementation {impl['points']}, model {model[0]}"
+            return None
+        parts = model[0].split(";")
+        if len(parts) != len(case["queries"]):
+            return "model answered " + model[0]
+        for q, r, a in zip(case["queries"], impl["res"], parts):
+            if q[0] in ("center", "fcenter"):
+                if not close(r, a):
+                    return f"{q}: implementation {r}, model {a}"
+            elif q[0] == "fnormal":
+                raw = [float(Fraction(x)) for x in a.split(",")]
+                ln = sum(x * x for x in raw) ** 0.5
+                if not ln > 0 or sum(x * y for x, y in zip(raw, r)) / ln < 1 - 1e-9:
+                    return f"{q}: implementation {r}, model direction {raw}"
+            elif q[0] in ("face", "closestface"):
+                if not same_pts(r, pts_of(a)):
+                    return f"{q}: implementation {r}, model {a}"
+            elif q[0] == "closest":
+                if r != a:
+                    return f"{q}: implementation {r}, model {a}"
+            else:
+                side, _, ptxt = a.partition("=")
+                if not same_pts(r["points"], pts_of(ptxt)):
+                    return f"{q}: implementation returns {r['points']}, model {a}"
         return None
 
     # ------------------------------------------------------------------ oracle (property stated on the implementation)
@@ -412,12 +704,18 @@ class C10(core.Check):
                             }
                         )
             return out
+        if case["kind"] in ("geo", "box", "extrude", "connector"):
+            return self._oracle_geo(case, impl)
+        base = case.get("base", "loft")
         if "reject" in impl:
             # a rejection is a violation only when every call was a valid one
             valid = all(
                 (c[0] in ("patch", "pside") and c[1] in BM_SIDE)
                 or (c[0] == "patchL" and all(x in BM_SIDE for x in c[1].split("+") if c[1] != "-"))
                 or c[0] in ("redges", "sameproj")
+                or (c[0] == "wedgepatch" and base == "wedge")
+                or (c[0] == "sideedge" and 0 <= c[1] <= 3)
+                or (c[0] == "faceedge" and 0 <= c[2] <= 3)
                 or (c[0] == "pedge" and {c[1], c[2]} in BM_EDGES)
                 or (c[0] in ("pcorner", "pcornerL") and 0 <= c[1] < 8)
                 or c[0] == "nface"
@@ -428,8 +726,23 @@ class C10(core.Check):
             return out
         # expected, from the blockMesh convention alone
         exp_p, exp_f, exp_e, exp_c = {}, {}, {}, {}
+        # a Revolve / Wedge has its Angle data on the four edges from the base face to the revolved face
+        exp_x = {frozenset((i, i + 4)) for i in range(4)} if base in ("revolve", "wedge") else set()
+        if base == "wedge":
+            # the revolved copies of the given face: "wedge_front" is the face at the positive angle (top), "wedge_back" the base
+            exp_p["top"], exp_p["bottom"] = "wedge_front", "wedge_back"
         for c in case["calls"]:
-            if c[0] == "patch":
+            if c[0] == "wedgepatch":
+                # inner = towards the axis (the face edge 0-1 and its revolved copy), outer = away from it
+                exp_p[{"set_inner_patch": "front", "set_outer_patch": "back"}[c[1]]] = c[2]
+            elif c[0] in ("sideedge", "faceedge"):
+                i = c[1] if c[0] == "sideedge" else c[2]
+                if not 0 <= i <= 3:
+                    out.append({"site": f"{'Operation.add_side_edge' if c[0] == 'sideedge' else 'Face.add_edge'}:invalid-corner-accepted", "what": str(c)})
+                    return out
+                slot = ("s" if c[0] == "sideedge" else c[1][0]) + str(i)
+                exp_e[frozenset(_slot_pair(slot))] = {c[-1]}
+            elif c[0] == "patch":
                 if c[1] not in BM_SIDE:
                     out.append({"site": "Operation.set_patch:invalid-side-accepted", "what": str(c)})
                     return out
@@ -479,7 +792,10 @@ class C10(core.Check):
             out.append({"site": "Operation.project_side:wrong-quad", "what": f"{case['calls']} -> {impl['F']}"})
         got_e = {frozenset(map(int, x.split(":")[0].split("-"))): set(x.split(":")[1].split("+")) for x in impl["E"]}
         if got_e != exp_e:
-            out.append({"site": "Operation.project_edge:wrong-edge", "what": f"{case['calls']} -> {impl['E']}"})
+            out.append({"site": "Operation.project_edge:wrong-edge", "what": f"{base} {case['calls']} -> {impl['E']}"})
+        got_x = {frozenset(map(int, x.split(":")[0].split("-"))) for x in impl["X"]}
+        if got_x != exp_x - set(exp_e) or any(not x.endswith(":edges.Angle") for x in impl["X"]):
+            out.append({"site": f"{base.capitalize()}.side-edges:not-on-the-four-vertical-edges", "what": f"{base} {case['calls']} -> {impl['X']}"})
         want_side = ["right", "left", "back", "front", "top", "bottom"]
         for k, side in impl["facing"]:
             if side != want_side[k]:
@@ -508,6 +824,81 @@ class C10(core.Check):
             out.append({"site": "Operation.project_corner:wrong-corner", "what": f"{case['calls']} -> {impl['C']}"})
         return out
 
+    def _oracle_geo(self, case: dict, impl: Any) -> List[dict]:
+        import numpy as np
+
+        out: List[dict] = []
+        F = Fraction
+        if case["kind"] == "box":
+            p, q = [F(c) for c in case["p"]], [F(c) for c in case["q"]]
+            got = [[F(x) for x in pt] for pt in impl["points"]]
+            for c in range(8):
+                bits = (c % 4 in (1, 2), c % 4 in (2, 3), c >= 4)
+                want = [max(p[i], q[i]) if bits[i] else min(p[i], q[i]) for i in range(3)]
+                if got[c] != want:
+                    out.append({"site": "Box.__init__:corner-not-in-blockMesh-order", "what": f"Box({case['p']}, {case['q']}): corner {c} is {got[c]}", "expected": [str(x) for x in want]})
+                    break
+            return out
+        if case["kind"] == "extrude":
+            base = np.array([[float(F(c)) for c in pt] for pt in case["points"]])
+            am = case["amount"]
+            if isinstance(am, list):
+                vec = np.array([float(F(c)) for c in am])
+            else:
+                fc = base.mean(axis=0)
+                nrm = sum(np.cross(base[i] - fc, base[(i + 1) % 4] - fc) for i in range(4))
+                vec = nrm / np.linalg.norm(nrm) * float(F(am))
+            got = np.array(impl["pf"])
+            for i in range(4):
+                if np.linalg.norm(got[i] - base[i]) > 1e-9 or np.linalg.norm(got[i + 4] - base[i] - vec) > 1e-9:
+                    out.append({"site": "Extrude.__init__:corner-i+4-is-not-corner-i-displaced", "what": f"corner {i}: {got[i].tolist()} -> {got[i + 4].tolist()}, amount {am}"})
+                    break
+            return out
+        if case["kind"] == "connector":
+            if "skipped" in impl:
+                return out
+            p1, p2, pc = np.array(impl["p1"]), np.array(impl["p2"]), np.array(impl["pc"])
+            ax, sign = case["axis"], case["sign"]
+            # the face of the first box towards the second one, and the face of the second towards the first
+            lim1 = p1[:, ax].max() if sign > 0 else p1[:, ax].min()
+            lim2 = p2[:, ax].min() if sign > 0 else p2[:, ax].max()
+            want = {tuple(np.round(x, 9)) for x in p1 if abs(x[ax] - lim1) < 1e-12} | {tuple(np.round(x, 9)) for x in p2 if abs(x[ax] - lim2) < 1e-12}
+            # the choice of faces only: which corner becomes which is ViewpointReorienter's business (C18)
+            if {tuple(np.round(x, 9)) for x in pc} != want or len(want) != 8:
+                out.append({"site": "Connector.__init__:not-the-two-facing-sides", "what": f"{case}: connector corners {pc.tolist()}"})
+            return out
+        pts = [[F(c) for c in pt] for pt in case["points"]]
+        key = lambda pt: tuple(F(x) for x in pt)
+        index = {key(pt): i for i, pt in enumerate(pts)}
+        fcs = {s_: [sum(pts[c][i] for c in q) / 4 for i in range(3)] for s_, q in BM_SIDE.items()}
+        right_handed = F(case["det"]) > 0
+
+        def side_of(points):
+            cs = {index.get(key(pt), -1) for pt in points}
+            return next((s_ for s_, q in BM_SIDE.items() if q == cs), "none:" + "-".join(map(str, sorted(cs))))
+
+        for q, r in zip(case["queries"], impl["res"]):
+            if q[0] in ("face", "closestface", "closest"):
+                if q[0] == "face":
+                    got, want = side_of(r), q[1]
+                else:
+                    v = [F(c) for c in q[1]]
+                    d = {s_: sum((a - b) ** 2 for a, b in zip(v, fc)) for s_, fc in fcs.items()}
+                    want = min(d, key=lambda k: d[k])
+                    got = r if q[0] == "closest" else side_of(r)
+                if got != want:
+                    site = {"face": "Operation.get_face:wrong-corners", "closest": "Operation.get_closest_side:not-the-closest", "closestface": "Operation.get_closest_face:not-the-closest"}[q[0]]
+                    out.append({"site": site, "what": f"{q} on {case['points']}: got {got}", "expected": want})
+            elif q[0] == "nface" and right_handed:
+                cs = _oracle_cosines(pts, [F(c) for c in q[1]])
+                want = max(cs, key=lambda k: cs[k])
+                got = side_of(r["points"])
+                if got != want:
+                    out.append({"site": "Operation.get_normal_face:not-the-side-facing-the-viewer", "what": f"viewer {q[1]} on {case['points']}: got {got}", "expected": want})
+                elif np.dot(np.array(r["normal"]), np.array(r["center"]) - np.array(impl["centre"])) <= 0:
+                    out.append({"site": "Operation.get_normal_face:returned-face-normal-points-inwards", "what": f"viewer {q[1]} on {case['points']}: {r}"})
+        return out
+
     def nontrivial_key(self, case, impl):
         import json
 
@@ -518,9 +909,14 @@ class C10(core.Check):
     def classify(self, case, impl):
         if case["kind"] == "face":
             return "face:" + "+".join(sorted({o[0] for o in case["ops"]}))
+        if case["kind"] == "geo":
+            return "geo:" + ("jittered" if case["jitter"] else "affine") + (":inside-out" if case["det"].startswith("-") else "")
+        if case["kind"] in ("box", "extrude", "connector"):
+            return case["kind"]
         if "reject" in impl:
             return "addr:rejected:" + impl["reject"]
-        return "addr:" + "+".join(sorted({c[0] for c in case["calls"]}))
+        b = case.get("base", "loft")
+        return "addr:" + ("" if b == "loft" else b + ":") + "+".join(sorted({c[0] for c in case["calls"]}))
 
 
 if __name__ == "__main__":
